@@ -883,3 +883,29 @@ Proof.
   - vm_compute. intros [C|[C|[C|[]]]]; discriminate.
   - vm_compute. tauto.
 Qed.
+
+(* FIXED finding (a068bcc): with multiplicities a number may exceed the total; bounding the products pi by the total
+   made small generating sets infeasible: numbers [1,2], total 1, multiplicity 2 is generated by {1} (2 = 2*1), the
+   encoder as it is now admits it for k = 1, the old one (pi <= total) admits nothing for k = 1 *)
+Definition ex_pi_inst : mgs_inst := {| mg_numbers := [1; 2]; mg_total := 1; mg_int := false; mg_mult := 2; mg_parts := None |}.
+Definition ex_pi_assign (v : var) : Q :=
+  match vidx v with
+  | [i] => if (vfam v =? fGen)%N then 1 else 0
+  | [i; j] => if (vfam v =? fX)%N || (vfam v =? fPi)%N then (if (j =? 0)%N then 1 else 2) else 0
+  | [p; i; j; b] => if (j =? b)%N then 1 else 0          (* Bit / Comp of product (0, j): x = 1 -> bit 0, x = 2 -> bit 1; gen = 1 *)
+  | _ => 0
+  end.
+Theorem mgs_pi_bound_old_refuted : exists (I : mgs_inst) (k : nat),
+  genset (mg_mult I) (mg_numbers I) (mg_total I) [1] /\ k = 1%nat /\
+  (exists a, sat a (encode_mgs I k)) /\ forall a, ~ sat a (encode_mgs_pi_old I k).
+Proof.
+  exists ex_pi_inst, 1%nat. split; [|split; [reflexivity|split]].
+  - split; [repeat constructor; lra|]. split; [vm_compute; reflexivity|].
+    intros a [<-|[<-|[]]]; [exists [1]%Z|exists [2]%Z]; (split; [reflexivity|]); (split; [repeat (apply Forall_cons; [cbn; lia|]); apply Forall_nil|]); vm_compute; reflexivity.
+  - exists ex_pi_assign. split; [apply Forall_dec_cols|apply Forall_dec_rows]; vm_compute; reflexivity.
+  - intros a Hsat. unfold encode_mgs_pi_old in Hsat. apply mgs_enc_sound in Hsat; [|cbn; lia|apply prod_ub_ge].
+    destruct Hsat as (_ & HT & HJ & _ & _). cbn [mg_total mg_numbers ex_pi_inst] in HT, HJ.
+    change (layers 1) with [0]%N in *. cbn [sumq] in HT.
+    destruct (HJ 1%N 2 (or_intror (or_introl eq_refl))) as [HX HS]. cbn [sumq] in HS.
+    destruct (HX 0%N (or_introl eq_refl)) as (z & _ & _ & _ & _ & HP). lra.
+Qed.
